@@ -164,7 +164,7 @@ def Inv (s : Sched) : Prop := InvExc s.mgr s.pending s.configs none
 
 /-! ### ids after `on_result` -/
 
-theorem resultCase_hasId {spec br res rg sl br' np} (hb : BWF spec br) (hl : LegalRes br res rg sl)
+theorem resultCase_hasId {spec br res rg sl br' np} (_hb : BWF spec br) (hl : LegalRes br res rg sl)
     (hc : ResultCase br res rg br' np) (t : Nat) : br'.HasId t ↔ br.HasId t ∨ res.tid = some t := by
   have hwr := written_hasId hl t
   cases hc with
